@@ -991,9 +991,10 @@ class ParserField:
         type = self.output_type
         if not type:
             return value
-        trans = context.transformer
         try:
-            return trans(value, type)  # noqa
+            with context.enter(self.name) as new_context:
+                # errors recorded by the output type's own parsing stay in the child context
+                return new_context.transformer(value, type)  # noqa
         except Exception as e:
             error = exc.ParseError(
                 item=self.name,
